@@ -930,6 +930,7 @@ func init() {
 }
 
 func progsC12(t *testing.T) {
+	progsJoinExtremes(t, "C12")
 	if common.Batch == 3%common.NBatch {
 		joinEarlyClose("C12", common.Pick(60_000, 1_000_000), false)
 	}
